@@ -456,6 +456,14 @@ static int bind_dgram(const char *name) {
     return s;
 }
 
+/* fills the stack region the next call chain is going to use with a non-zero pattern: an automatic buffer the library
+   forgets to terminate / initialise then holds 0xA5 bytes instead of whatever (often zero) happened to be there */
+__attribute__((noinline)) static void dirty_stack(void) {
+    volatile char junk[48 * 1024];
+    for (size_t i = 0; i < sizeof junk; i += 1) junk[i] = (char) 0xA5;
+    __asm__ volatile("" ::: "memory");
+}
+
 static void do_call(char **tok, int ntok) {
     /* call <id> <fn> <path> <argv> <envp> <ret|real> <errno> */
     if (ntok < 8) {
@@ -505,6 +513,7 @@ static void do_call(char **tok, int ntok) {
     /* glibc declares execv/execve nonnull(1,2); call through volatile pointers so the compiler can assume nothing */
     int (*volatile p_execv)(const char *, char *const *) = execv;
     int (*volatile p_execve)(const char *, char *const *, char *const *) = execve;
+    dirty_stack();
     errno = 0;
     int r = is_v ? p_execv(path, argv) : p_execve(path, argv, envp);
     int e = errno;
@@ -705,6 +714,7 @@ static int do_vitro(char **tok, int nt) {
         snoopy_cleanup();
         return 1;
     }
+    dirty_stack();
     if (!strcmp(c, "vds")) { /* vds id name arg size */
         char *name = decode_bytes(tok[2], NULL), *arg = decode_bytes(tok[3], NULL);
         size_t size = strtoul(tok[4], NULL, 10);
